@@ -387,7 +387,7 @@ def evaluate_payload_template(input, context, template):
 
             # Create range using list comprehension. Note end + 1 is used as
             # ASL spec specifies inclusive range but Python range is exclusive
-            array = [i for i in range(start, end + 1, increment)]
+            array = [i for i in range(start, end + (1 if increment > 0 else -1), increment)]
 
             if len(array) > 1000:
                 raise IntrinsicFailure(
